@@ -106,7 +106,7 @@ func caseC05(c *Ctx) {
 		all[c.Draw(len(all))].Name = []string{".", ".."}[c.Draw(2)]
 		c.st.Count("dot-named-node")
 	}
-	branch := branchSets[c.Pick(3, 1, 1, 1, 1, 1, 1)]
+	branch := branchSets[c.Pick(3, 1, 1, 1, 1, 1, 1, 1, 1)]
 	op := Op{Kind: "walk", Branch: branch}
 	if branch != nil && c.Chance(1, 4) {
 		op.BranchOnly = []string{"last", "mid"}[c.Draw(2)]
@@ -154,10 +154,18 @@ func c05Check(c *Ctx, form string, forest []*MNode, branch []string, op Op, doc 
 	for _, r := range forest {
 		nNodes += r.Count()
 	}
+	// now and then every walk of the case is made on one and the same tree object: a walk
+	// that was stopped must leave nothing in the tree that changes the next walk
+	var shared *gtree.Node
+	if deferred && op.FromRoot && c.Chance(1, 3) {
+		shared = buildNode(forest[0])
+		c.st.Count("all-walks-on-one-tree-object")
+	}
 	mk := func(failAt int) *Env {
 		e := &Env{Doc: doc, Reader: noReaderFault, Writer: noWriterFault, Cb: CbPlan{FailAt: failAt, ErrVariant: errVariant}}
 		if op.FromRoot {
 			e.Tree = forest[0]
+			e.Node = shared
 		}
 		return e
 	}
@@ -284,6 +292,17 @@ func c05Check(c *Ctx, form string, forest []*MNode, branch []string, op Op, doc 
 			fail("C05:callback-error-not-returned-unchanged:"+form, "callback failed at visit %d with %v; the walk returned %v", k, out.CbErr, out.Err)
 		}
 	}
+	if shared != nil {
+		again := run(-1)
+		if again.Err != nil || len(again.Visits) != len(base.Visits) {
+			c.Failf("C05:walk-after-stopped-walks-differs:"+form, "after walks of the same tree object that were stopped at every index, a complete walk returns %v with %d visits (the first one had %d)", again.Err, len(again.Visits), len(base.Visits))
+		}
+		for i := range again.Visits {
+			if visitKey(again.Visits[i]) != visitKey(base.Visits[i]) {
+				c.Failf("C05:walk-after-stopped-walks-differs:"+form, "visit %d is %s, the first walk of the tree had %s", i, visitKey(again.Visits[i]), visitKey(base.Visits[i]))
+			}
+		}
+	}
 	c.st.Sample(form, map[string]any{"form": form, "op": op.String(), "forest": forestString(forest), "stop_indices_enumerated": len(ks)})
 	if op.Kind == "walkiter" && deferred {
 		c05Deferred(c, forest[0], branch, op.Alias)
@@ -312,6 +331,15 @@ func c05Deferred(c *Ctx, model *MNode, branch []string, alias bool) {
 		other := branchSets[1]
 		if len(branch) == 4 && branch[0] == other[0] {
 			other = branchSets[3]
+		}
+		if len(branch) == 4 && strings.Join(branch, "") == strings.Join(branchSets[5], "") {
+			// other strings, the same text when concatenated
+			for _, i := range []int{5, 7, 8} {
+				if strings.Join(branchSets[i], "\x00") != strings.Join(branch, "\x00") {
+					other = branchSets[i]
+					break
+				}
+			}
 		}
 		gtree.OutputFromRoot(io.Discard, root, gtree.WithBranchFormatLastNode(other[0], other[1]), gtree.WithBranchFormatIntermedialNode(other[2], other[3]))
 		acts = append(acts, "OutputFromRoot with other branch strings")
